@@ -15,13 +15,17 @@ import (
 	"sort"
 	"strings"
 
+	bo "github.com/benoitkugler/webrender/html/boxes"
+
 	"verif/internal/engine"
 )
 
 type check struct {
 	tier     string
+	shapes2  [][]int
 	shapes3  [][]int
 	shapes4  [][]int
+	nF       int64 // units of the 2-element space: shape x d1 (every extra deviation)
 	nA       int64 // units of the 3-element space: shape x d1 x d2
 	skel     []tableSkeleton
 	menu     []cellSpec
@@ -38,6 +42,8 @@ const nD = int64(nDisp)
 
 func (c *check) Init(tier string, seed int64) engine.Space {
 	c.tier = tier
+	c.shapes2 = forests(2)
+	c.nF = int64(len(c.shapes2)) * nD
 	c.shapes3 = forests(3)
 	c.nA = int64(len(c.shapes3)) * nD * nD
 	c.skel, c.menu = tableSkeletons(tier)
@@ -64,6 +70,13 @@ func (c *check) Init(tier string, seed int64) engine.Space {
 		root := buildTree(`<body>x<e1 id=e1 style="display:contents">y</e1>`)
 		ti := analyse(root)
 		contentsSupported = len(ti.byOwner["e1"]) == 0
+		// the images of the alphabet must load (or the replaced-element symbols are void)
+		for _, d := range []string{objectData, pngURL} {
+			ti = analyse(buildTree(`<body>x<object id=e1 data="` + d + `">y</object>`))
+			if r := ti.byOwner["e1"]; len(r) != 1 || !is(bo.ReplacedT, r[0].b) {
+				c.initNote += "image does not load: " + d[:16] + "; "
+			}
+		}
 	}()
 	var tables int64
 	for _, s := range c.skel {
@@ -71,16 +84,20 @@ func (c *check) Init(tier string, seed int64) engine.Space {
 	}
 	chunk := int64(4)
 	return engine.Space{
-		Units: c.nA + c.nB + c.nC, Chunk: chunk, Level: "model_checking",
-		Rule: "every ordered forest of 3 (thorough: also 4) elements under <body> x every assignment of the 21 display keywords to every element (4 elements: at most 3 deviations in total) x {no extra, or one extra deviation}; then every <table> of up to 3 rows with the listed cells per row x every (colspan,rowspan) of the menu per cell x row-group layouts; each case is built with the real BuildFormattingStructure and checked against I1..I9; a case is non-trivial when the fix-up passes had to create at least one anonymous box or drop an element",
+		Units: c.nF + c.nA + c.nB + c.nC, Chunk: chunk, Level: "model_checking",
+		Rule: "every ordered forest of 2 elements under <body> x every assignment of the 21 display keywords x {no extra, or one extra deviation of the full list: out-of-flow and display-rewriting properties (float, absolute, fixed, float:footnote with block and inline footnote-display, position:running()), pseudo-elements, replaced elements that load (object with svg / raster data, inline svg) with fallback content, children and pseudo-elements of their own, <img>/<embed> children with pseudo-elements or display:list-item, images that fail}; then every ordered forest of 3 (thorough: also 4) elements under <body> x every assignment of the 21 display keywords to every element (4 elements: at most 3 deviations in total) x {no extra, or one extra deviation}; then every <table> of up to 3 rows with the listed cells per row x every (colspan,rowspan) of the menu per cell x row-group layouts; each case is built with the real BuildFormattingStructure and checked against I1..I9; a case is non-trivial when the fix-up passes had to create at least one anonymous box or drop an element",
 		Bounds: map[string]any{
-			"displays": dispName[:], "forests_of_3": len(c.shapes3), "forests_of_4": len(c.shapes4),
+			"displays": dispName[:], "forests_of_2": len(c.shapes2), "extras_of_3_element_forests": c.extraNames(3), "forests_of_3": len(c.shapes3), "forests_of_4": len(c.shapes4),
 			"extras": extraName[:], "table_skeletons": len(c.skel), "tables": tables, "span_menu": fmt.Sprint(c.menu),
 			"display_contents_supported_by_implementation": contentsSupported, "init_note": c.initNote,
 		},
 		Assumptions: []string{
 			"trees deeper or wider than 4 elements (+ pseudo-elements, markers, one <img>) are not explored",
 			"at most one extra deviation per document; for 4 elements at most 3 deviations in total",
+			"quick tier: the extra deviations added with the 2-element forests (footnote, running, loaded replaced elements with content, failing images) are combined with 2-element forests only; the thorough tier combines them with the 3-element forests as well",
+			"the content of a running element (position:running()) is left as built by every anonymous-box pass until a copy is placed in a margin box at layout: only I6/I7 (what generates boxes) are checked inside it",
+			"footnotes: the boxes reached through a ::footnote-call box of the tree are checked after the step layout applies to a footnote area (CreateAnonymousBox on a block box holding them); a footnote of the list that no call points to is never laid out and is only counted",
+			"display:list-item on a footnote element: whether the list marker survives footnote-display is not specified and not checked",
 			"display values outside the 21 keywords (ruby, run-in, two-keyword forms) are not explored",
 			"display:contents is rejected by the validator of the implementation: the declaration is void (CSS error handling) and clause I8 is not applicable; the symbol stays in the alphabet as 'invalid value'",
 			"CSS 2.1 §17.5 leaves the position of a column-spanning cell that meets a row-spanning cell undefined (overlap or shift); the property statement asks for 'no two cells on the same grid slot', which is what clause I4-slot-overlap checks",
@@ -88,6 +105,25 @@ func (c *check) Init(tier string, seed int64) engine.Space {
 		BudgetS: 0, MinOutcomes: 2,
 	}
 }
+
+// extraNames lists the targeted extra kinds used with forests of n elements in this tier.
+func (c *check) extraNames(n int) []string {
+	seen := map[extraKind]bool{}
+	ds := make([]disp, n)
+	ds[0] = dCell
+	ds[n-1] = dListItem
+	var out []string
+	for _, x := range c.extrasFor(ds, true) {
+		if !seen[x.kind] {
+			seen[x.kind] = true
+			out = append(out, extraName[x.kind])
+		}
+	}
+	return out
+}
+
+// newKinds: the extra deviations added with the 2-element space.
+var newKinds = []extraKind{xFootnote, xFootnoteInline, xRunning, xObjPng, xSvg, xObjBroken, xImgPseudo, xImgLI, xEmbedChild, xImgBroken}
 
 // extrasFor lists the extra deviations applicable to a display assignment.
 func (c *check) extrasFor(ds []disp, withExtras bool) []extra {
@@ -105,7 +141,7 @@ func (c *check) extrasFor(ds []disp, withExtras bool) []extra {
 		out = append(out, extra{xLspInside, 0})
 	}
 	out = append(out, extra{xWsOnly, 0}, extra{xNoText, 0})
-	if c.tier == "thorough" {
+	if c.tier == "thorough" || len(ds) == 2 {
 		out = append(out, extra{xSpaced, 0})
 	}
 	for t := 1; t <= len(ds); t++ {
@@ -117,14 +153,31 @@ func (c *check) extrasFor(ds []disp, withExtras bool) []extra {
 			// anonymous cell is made from it
 			out = append(out, extra{xColspan2, t}, extra{xRowspan2, t}, extra{xRowspan0, t})
 		}
-		if c.tier == "thorough" {
+		if c.tier == "thorough" || len(ds) == 2 {
 			out = append(out, extra{xImgAlt, t}, extra{xBeforeBlock, t}, extra{xBeforeCell, t})
+		}
+		if len(ds) == 2 || (c.tier == "thorough" && len(ds) == 3) {
+			for _, k := range newKinds {
+				out = append(out, extra{k, t})
+			}
 		}
 	}
 	return out
 }
 
 func (c *check) Run(u int64, ctx *engine.Ctx) {
+	if u < c.nF {
+		s := u / nD
+		d1 := disp(u % nD)
+		for d2 := disp(0); d2 < nDisp; d2++ {
+			ds := []disp{d1, d2}
+			for _, x := range c.extrasFor(ds, true) {
+				c.runDoc(ctx, newDoc(c.shapes2[s], ds, x))
+			}
+		}
+		return
+	}
+	u -= c.nF
 	switch {
 	case u < c.nA:
 		s := u / (nD * nD)
@@ -190,8 +243,7 @@ func (c *check) runDoc(ctx *engine.Ctx, dc *docCase) {
 	}
 	ctx.Trans(int64(dc.devs))
 	ok := ctx.GuardFail(dc.html, dc.featuresOf(all...), func() {
-		root := buildTree(dc.html)
-		ti = analyse(root)
+		ti = analyseDoc(buildDoc(dc.html))
 		for _, t := range ti.tables {
 			ti.checkGrid(t.b)
 		}
@@ -259,6 +311,14 @@ func (c *check) runTables(u int64, ctx *engine.Ctx) {
 }
 
 func (c *check) Describe(u int64) any {
+	if u < c.nF {
+		s := u / nD
+		d1 := disp(u % nD)
+		first := newDoc(c.shapes2[s], []disp{d1, 0}, extra{})
+		return map[string]any{"space": "2 elements", "forest(parents)": c.shapes2[s], "display(e1)": d1.String(),
+			"display(e2)": "all 21", "extras": "none + every applicable extra deviation of the full list", "first": first.html}
+	}
+	u -= c.nF
 	switch {
 	case u < c.nA:
 		s := u / (nD * nD)
